@@ -744,9 +744,12 @@ class Plate(ScreenSubset):
             raise ValueError("Cannot merge two plates from different screens")
         self.selection_vector = self.selection_vector | other.selection_vector
         self.screen.plate_names[self.selection_vector] = self.plate_name
-        self.screen._plate_ids, _, _ = encode_1d_array_to_0_indexed_ids(
-            self.screen.plate_names
-        )
+        (
+            self.screen._plate_ids,
+            unique_plate_names,
+            unique_plate_ids,
+        ) = encode_1d_array_to_0_indexed_ids(self.screen.plate_names)
+        self.screen._plate_mapping = (unique_plate_names, unique_plate_ids)
         return self
 
     def __lt__(self, other):
